@@ -16,7 +16,7 @@ open Parsley Parsley.Prim Parsley.Obj Parsley.ObjStm Parsley.ObjStmSpec Parsley.
                 order, context lookups)
           rej   a stream the statement says must be rejected (class = which rule): output must be `err`
           ex    exhaustive small space: 2-pair header with offsets (o0,o1) over a content on the
-                alphabet {1,2,blank,x}; the oracle is a three-line reader written here
+                alphabets {1,2,blank,x} and {1,blank,%,LF}; the oracle is a small reader written here
           mut   arbitrary corruption: correspondence and no-panic only
    predef `-` or comma-separated `id.gen` already defined in the context (bound to the integer 7*(id%1000)+gen%7)
    dechex `=`  no filter is involved (or decoding is expected to fail);
@@ -90,11 +90,24 @@ def model (line : String) : String :=
 
 /-! ### the oracle of the exhaustive stream: a reader for the alphabet {digits, blank, x} -/
 
-/-- value located at offset `o`: skip blanks, then a maximal non-empty digit run -/
+/-- white space of the small alphabet: blank, LF, and a comment = `%` up to and including the next
+    LF (or the end of the data); `fuel` ≥ remaining bytes -/
+def skipWsC : Nat → Bytes → Nat → Nat
+  | 0, _, i => i
+  | f + 1, s, i =>
+    match s[i]? with
+    | some 32 => skipWsC f s (i + 1)
+    | some 10 => skipWsC f s (i + 1)
+    | some 37 =>
+      let c := (s.drop i).takeWhile (· != 10)
+      skipWsC f s (i + c.length + 1)
+    | _ => i
+
+/-- value located at offset `o`: skip white space and comments, then a maximal non-empty digit run.
+    Depends on `o` and the bytes from `o` on only. -/
 def digReader (s : Bytes) (o : Nat) : Option (Nat × Nat × Nat) :=
   if o > s.length then none else
-  let ws := (s.drop o).takeWhile (· == 32)
-  let st := o + ws.length
+  let st := Nat.min (skipWsC (s.length + 1) s o) s.length
   let ds := (s.drop st).takeWhile isDigit
   if ds.isEmpty then none
   else some (ds.foldl (fun a c => a * 10 + (c.toNat - 48)) 0, st, st + ds.length)
@@ -172,7 +185,7 @@ def rndWs (r : Rng) (minLen maxLen : Nat) : Bytes × Rng :=
 /-- junk: bytes that belong to no object.  Starts with a blank (so that the preceding token
     ends) and then a byte that cannot continue a number or start a reference. -/
 def rndJunk (r : Rng) : Bytes × Rng :=
-  let (k, r) := r.nat 8
+  let (k, r) := r.nat 12
   match k with
   | 0 => ([], r)
   | 1 => let (w, r) := rndWs r 1 3; (w, r)
@@ -184,6 +197,12 @@ def rndJunk (r : Rng) : Bytes × Rng :=
     let (n, r) := r.nat 6
     let (b, r) := r.bytes n
     ([32, 120] ++ b, r)
+  -- comments that are NOT terminated before the next declared offset: a reader that scans on from
+  -- the previous object swallows the next member(s) up to the next LF (or the end of the data)
+  | 7 => (bs " %x", r)
+  | 8 => (bs "%(a) [1] <</K 1>> 7 0 R", r)
+  | 9 => (bs "\r%%EOF\r", r)
+  | 10 => (bs " %c\n %d", r)
   | _ => (bs " x 99 88 (unbalanced", r)
 
 def idPool : List Nat := [1, 2, 3, 5, 8, 10, 11, 12, 20, 30, 73, 100, 255, 1000, 65535, 65536, 4294967295, 4294967296,
@@ -217,8 +236,13 @@ def rndMembers (r : Rng) (n : Nat) (gapStyle : Nat) : Built × Rng :=
       match gapStyle with
       | 0 => ((if first then [] else [32]), r)                                   -- contiguous, as the unit tests
       | 1 => if first then (let (w, r) := rndWs r 0 2; (w, r)) else (let (w, r) := rndWs r 1 3; (w, r))
-      | _ => if first then (let (k, r) := r.nat 2; if k == 0 then ([], r) else (bs "x ", r))
-             else (let (j, r) := rndJunk r; ((if j.isEmpty then [10] else j ++ [32]), r))
+      | _ => if first then (let (k, r) := r.nat 4; if k == 0 then ([], r) else if k == 1 then (bs "x ", r)
+                            else if k == 2 then (bs "%c ", r) else (bs "%(a) 1 0 R\r", r))
+             else (let (j, r) := rndJunk r
+                   -- `12 %… <LF> 0 R` IS the reference 12 0 R (comments are white space): after an
+                   -- integer member the junk starts with a token that cannot continue a reference
+                   let guard : Bytes := match acc.1.vals.getLast? with | some (.int _) => bs " x" | _ => []
+                   ((if j.isEmpty then guard ++ [10] else guard ++ j ++ [32]), r))
     ({ entries := acc.1.entries ++ [⟨id, gap, lead ++ sp⟩], leads := acc.1.leads ++ [lead.length],
        vals := acc.1.vals ++ [v], maxd := Nat.max acc.1.maxd (depth v) }, r)) (⟨[], [], [], 1⟩, r)
   (b, r)
@@ -267,6 +291,12 @@ def gen (seed n : Nat) (tier : String) (emit : String → IO Unit) : IO Unit := 
   for _ in List.range maxLen do
     level := level.flatMap fun c => alphabet.map fun a => c ++ [a]
     contents := contents ++ level
+  -- the same space over {1, blank, %, LF}: comments with and without a terminating LF before an offset
+  let alphabetC : List UInt8 := [49, 32, 37, 10]
+  let mut levelC : List Bytes := [[]]
+  for _ in List.range maxLen do
+    levelC := levelC.flatMap fun c => alphabetC.map fun a => c ++ [a]
+    contents := contents ++ levelC.filter (fun c => c.contains 37 || c.contains 10)
   let mut idx := 0
   for c in contents do
     if !c.isEmpty then
